@@ -1,11 +1,111 @@
 package sim
 
 import (
+	"fmt"
+	"os"
+	"regexp"
+	"runtime"
+	"strings"
+	"sync/atomic"
 	"testing"
 	"testing/synctest"
+	"time"
 )
 
 func syncTest(t *testing.T, fn func(t *testing.T)) { synctest.Test(t, fn) }
 
+// waiting is 1 while a scheduler sits in a quiescence wait (synctest.Wait, or mode R's wait for the released set);
+// waitEpoch changes whenever such a wait begins or ends. Both are read by the stall watchdog only.
+var (
+	waiting   atomic.Int32
+	waitEpoch atomic.Uint64
+)
+
+// stallStep is the scheduler step whose release is being waited for (engines that support -sim.freeafter publish it).
+var stallStep atomic.Int64
+
+func beginWait() { waitEpoch.Add(1); waiting.Store(1) }
+func endWait()   { waiting.Store(0); waitEpoch.Add(1) }
+
 // syncWait returns when every other goroutine of the bubble is durably blocked or has finished.
-func syncWait() { synctest.Wait() }
+func syncWait() {
+	beginWait()
+	synctest.Wait()
+	endWait()
+}
+
+// Stall watchdog. The simulator decides who runs at hooks and seams; a goroutine that blocks on anything else that is
+// never released - a package-level semaphore, mutex or channel shared between callers - is outside its control:
+// synctest.Wait does not return (such a goroutine is not "durably blocked") and the run would sit there until the
+// orchestrator's coarse stall timer. This goroutine runs outside every bubble on the real clock, notices that one
+// quiescence wait has lasted stallAfter, and looks at the goroutine dump: if a goroutine is *blocked* (not running)
+// inside library code that is not one of our hook parks, the process reports it and exits 3; the orchestrator then
+// treats it like any crash (re-runs the seed index in a fresh child, which must stall the same way, and requires a
+// library frame). Busy goroutines are left to the orchestrator's timer, exactly as before. Wall-clock only triggers
+// the look; the verdict is the blocked library goroutine.
+const stallAfter = 40 * time.Second
+
+var blockedStates = regexp.MustCompile(`^goroutine \d+ [^\[]*\[(chan receive|chan send|select|sync\.Mutex\.Lock|sync\.RWMutex\.R?Lock|semacquire|sync\.Cond\.Wait|sync\.WaitGroup\.Wait)[^\]]*\]:`)
+
+func startStallWatchdog() {
+	go func() {
+		var epoch uint64
+		var since time.Time
+		for {
+			time.Sleep(time.Second)
+			if waiting.Load() != 1 {
+				since = time.Time{}
+				continue
+			}
+			e := waitEpoch.Load()
+			if e != epoch || since.IsZero() {
+				epoch, since = e, time.Now()
+				continue
+			}
+			if time.Since(since) < stallAfter {
+				continue
+			}
+			buf := make([]byte, 8<<20)
+			buf = buf[:runtime.Stack(buf, true)]
+			var culprits, rest []string
+			for _, g := range strings.Split(string(buf), "\n\n") {
+				lib := false
+				for _, l := range strings.Split(g, "\n") {
+					if strings.HasPrefix(l, "github.com/minio/simdjson-go.") {
+						if strings.HasPrefix(l, "github.com/minio/simdjson-go.simHook") || strings.HasPrefix(l, "github.com/minio/simdjson-go.Sim") {
+							lib = false // parked by the simulator itself
+							break
+						}
+						lib = true
+					}
+				}
+				if lib && blockedStates.MatchString(g) && !strings.Contains(g, ".(*Sched).Park") {
+					culprits = append(culprits, g)
+				} else {
+					rest = append(rest, g)
+				}
+			}
+			if len(culprits) == 0 || waitEpoch.Load() != epoch {
+				// nothing blocked in library code: a long computation; the orchestrator's timer owns that case
+				since = time.Now().Add(stallAfter) // look again after another 2 x stallAfter
+				continue
+			}
+			// Goroutines the simulator itself holds in the middle of a library call (parked at a pool-tenancy hook): in a
+			// real execution they would go on and might release what the blocked goroutine waits for. A cooperative
+			// scheduler cannot tell the two cases apart (it cannot resume them from here), so this observation is not
+			// a verdict: exit 4, "simulator limitation"; the free-running mode decides such changes.
+			held := 0
+			for _, g := range rest {
+				if strings.Contains(g, ".(*Sched).Park") && strings.Contains(g, "simdjson-go.simHook(") {
+					held++
+				}
+			}
+			if held > 0 {
+				fmt.Fprintf(os.Stderr, "SIM-LIMITATION: step=%d a goroutine is blocked in library code on something outside the simulation while the simulator holds %d goroutine(s) parked inside library calls; not a verdict (no progress for %v)\n\n%s\n", stallStep.Load(), held, stallAfter, strings.Join(culprits, "\n\n"))
+				os.Exit(4)
+			}
+			fmt.Fprintf(os.Stderr, "fatal error: simulation stalled: goroutine blocked outside the simulator's control (no progress for %v)\n\n%s\n\n--- other goroutines ---\n%s\n", stallAfter, strings.Join(culprits, "\n\n"), strings.Join(rest, "\n\n"))
+			os.Exit(3)
+		}
+	}()
+}
